@@ -88,6 +88,7 @@ type Sim struct {
 	R      *run.Ctx
 	Judged map[string]bool // violation kinds this monitor judges; nil = all
 	Prop   string
+	CaseID string
 	Grants []*Grant
 	Toks   []*Tok
 	Hist   []string
@@ -96,6 +97,8 @@ type Sim struct {
 	// SweepHints: introspect with both hints during sweeps
 	BothHints bool
 	Cfg       Cfg
+	// LifeFn, if set, is the monitor's own expectation of the effective lifetime (C07); default: the library's helper.
+	LifeFn func(client string, gt fosite.GrantType, tt fosite.TokenType, fallback time.Duration) time.Duration
 }
 
 type Cfg struct {
@@ -140,7 +143,7 @@ func (s *Sim) viol(kind, key, detail string) {
 	if len(h) > 60 {
 		h = append([]string{"..."}, h[len(h)-60:]...)
 	}
-	s.R.Violate(run.Violation{Kind: kind, Key: kind + " " + key, Detail: detail, History: append([]string(nil), h...)})
+	s.R.Violate(run.Violation{Kind: kind, Key: kind + " " + key, Detail: detail, Case: s.CaseID, History: append([]string(nil), h...)})
 }
 
 // Expect returns what the statements demand of t at the current instant.
@@ -303,6 +306,9 @@ func (s *Sim) fuzzImplicit(g *Grant, why string) {
 }
 
 func (s *Sim) life(client string, gt fosite.GrantType, tt fosite.TokenType, fallback time.Duration) time.Duration {
+	if s.LifeFn != nil {
+		return s.LifeFn(client, gt, tt, fallback)
+	}
 	return fosite.GetEffectiveLifespan(s.W.Client(client), gt, tt, fallback)
 }
 
@@ -883,7 +889,9 @@ func (s *Sim) checkJWT(t *Tok) {
 	if !sameSet(list(m["aud"]), g.Aud) {
 		bad = append(bad, fmt.Sprintf("aud %v != %v", m["aud"], g.Aud))
 	}
-	if g.Subject != "*" && fmt.Sprint(m["sub"]) != g.Subject {
+	// the JWT "sub" comes from the session the integrator supplies; only the harness-built sessions of the
+	// authorization-endpoint and device flows carry the grant's subject there
+	if g.Subject != "*" && g.Origin != "jwt_bearer" && fmt.Sprint(m["sub"]) != g.Subject {
 		bad = append(bad, fmt.Sprintf("sub %v != %v", m["sub"], g.Subject))
 	}
 	if e, ok := m["exp"].(float64); !ok || int64(e) != t.Exp.Unix() {
@@ -893,4 +901,28 @@ func (s *Sim) checkJWT(t *Tok) {
 	if len(bad) > 0 {
 		s.viol("payload", originKey(t)+"/jwt-claims", fmt.Sprintf("JWT access token %s: %s", t.Name(), strings.Join(bad, "; ")))
 	}
+}
+
+// JWTBearer runs the RFC 7523 authorization grant with a harness-signed assertion.
+func (s *Sim) JWTBearer(client, assertion, subject string, scopes, aud []string) *Grant {
+	form := url.Values{"grant_type": {"urn:ietf:params:oauth:grant-type:jwt-bearer"}, "assertion": {assertion}, "scope": {strings.Join(scopes, " ")}}
+	s.log("jwt_bearer client=%s sub=%s scope=%v", client, subject, scopes)
+	out := s.W.Token(form, s.auth(client))
+	if out.Err != nil {
+		s.note("error %s", world.ErrDetail(out.Err))
+		return nil
+	}
+	g := &Grant{ID: len(s.Grants), Origin: "jwt_bearer", Client: client, Subject: subject, Scopes: scopes, Aud: aud}
+	s.Grants = append(s.Grants, g)
+	s.takePair(g, out, fosite.GrantTypeJWTBearer, false)
+	s.note("ok g%d", g.ID)
+	return g
+}
+
+// TakeIDTokens exposes id tokens of a grant.
+func (g *Grant) LastIDToken() string {
+	if len(g.IDToks) == 0 {
+		return ""
+	}
+	return g.IDToks[len(g.IDToks)-1]
 }
